@@ -14,6 +14,7 @@ import (
 	"strings"
 	"sync"
 	"sync/atomic"
+	"syscall"
 	"time"
 
 	"github.com/anacrolix/dht/v2"
@@ -107,6 +108,7 @@ type H struct {
 	writesOf  map[string]int // dst|t -> number of writes seen (for rated-ness of retries)
 	keyRL     map[string]dht.QueryRateLimiting
 	failNext  int32 // inject a write failure on the next n writes
+	failKind  int32 // counts injected failures; picks the error they report
 	shortNext int32 // the next n writes are reported short (n-1 bytes, no error) although the datagram leaves
 	tn        int
 	node      string // name of this node in multi-node traces ("" otherwise)
@@ -195,6 +197,14 @@ func newHAt(rng *rand.Rand, tr *sim.Trace, seg int, o opts, local string, node s
 	h.conn.OnWrite = func(b []byte, to net.Addr) error {
 		if atomic.LoadInt32(&h.failNext) > 0 && atomic.AddInt32(&h.failNext, -1) >= 0 {
 			h.conn.Failed(b, to)
+			// what a real UDP socket reports: every other failure is "no buffer space" / "try again", the kind a
+			// well-meant retry would go round for (the budget is spent per datagram that leaves, whatever the error)
+			switch atomic.AddInt32(&h.failKind, 1) % 4 {
+			case 1:
+				return &net.OpError{Op: "write", Net: "udp", Addr: to, Err: os.NewSyscallError("sendto", syscall.ENOBUFS)}
+			case 3:
+				return &net.OpError{Op: "write", Net: "udp", Addr: to, Err: os.NewSyscallError("sendto", syscall.EAGAIN)}
+			}
 			return sim.ErrInjected
 		}
 		if atomic.LoadInt32(&h.shortNext) > 0 && atomic.AddInt32(&h.shortNext, -1) >= 0 {
